@@ -105,7 +105,7 @@ def decoy_imports(text: str, added: list[str]) -> str:
     return text.rstrip("\n") + "\n\n\ndef decoy_scope():\n" + body + "\n    return None\n"
 
 
-ARGS = ["asis", "kwspread-last", "kwspread-mid", "extra-kw", "dict-spread", "same-line-pair"]
+ARGS = ["asis", "kwspread-last", "kwspread-mid", "extra-kw", "dict-spread", "same-line-pair", "multiline"]
 
 
 def changed_lines(before: str, after: str) -> set[int]:
@@ -226,15 +226,80 @@ def same_line_pair(text: str, lines: set[int]) -> str | None:
     return out if applied[0] else None
 
 
+def multiline_parens(text: str, lines: set[int]) -> str | None:
+    """`(a == b)` on one of `lines` becomes `(a ==` / `    b)`: a line break after the operator, inside the expression's
+    own parentheses."""
+    import libcst as cst
+    from libcst.metadata import MetadataWrapper, PositionProvider
+
+    try:
+        wrapper = MetadataWrapper(cst.parse_module(text))
+    except Exception:  # noqa: BLE001
+        return None
+    applied = [0]
+    brk = cst.ParenthesizedWhitespace(first_line=cst.TrailingWhitespace(newline=cst.Newline()), indent=True, last_line=cst.SimpleWhitespace("        "))
+
+    class T(cst.CSTTransformer):
+        METADATA_DEPENDENCIES = (PositionProvider,)
+
+        def __init__(self):
+            super().__init__()
+            self.depth = 0  # number of enclosing parenthesised expressions (a line break is legal inside them)
+
+        def on_visit(self, node):
+            if getattr(node, "lpar", None):
+                self.depth += 1
+            return super().on_visit(node)
+
+        def on_leave(self, original_node, updated_node):
+            out = super().on_leave(original_node, updated_node)
+            if getattr(original_node, "lpar", None):
+                self.depth -= 1
+            return out
+
+        def _hit(self, original_node):
+            pos = self.get_metadata(PositionProvider, original_node)
+            # the node's own parentheses count (depth was raised when it was entered)
+            return self.depth > 0 and pos.start.line == pos.end.line and pos.start.line in lines
+
+        def leave_Comparison(self, original_node, updated_node):
+            if not self._hit(original_node):
+                return updated_node
+            first = updated_node.comparisons[0]
+            applied[0] += 1
+            return updated_node.with_changes(comparisons=[first.with_changes(operator=first.operator.with_changes(whitespace_after=brk)), *updated_node.comparisons[1:]])
+
+        def leave_BooleanOperation(self, original_node, updated_node):
+            if not self._hit(original_node):
+                return updated_node
+            applied[0] += 1
+            return updated_node.with_changes(operator=updated_node.operator.with_changes(whitespace_before=brk))   # break BEFORE and/or
+
+        def leave_BinaryOperation(self, original_node, updated_node):
+            if not self._hit(original_node):
+                return updated_node
+            applied[0] += 1
+            return updated_node.with_changes(operator=updated_node.operator.with_changes(whitespace_after=brk))
+
+    try:
+        out = wrapper.visit(T()).code
+    except Exception:  # noqa: BLE001
+        return None
+    return out if applied[0] else None
+
+
 def apply(text: str, vec: dict, added_imports: list[str] | None = None, expected: str | None = None) -> str | None:
     t = text
     if vec.get("args", "asis") != "asis":
         if expected is None:
             return None
+        lines = changed_lines(text, expected) or set(range(1, text.count("\n") + 2))   # a probe has no expected output: every line
         if vec["args"] == "same-line-pair":
-            t = same_line_pair(t, changed_lines(text, expected))
+            t = same_line_pair(t, lines)
+        elif vec["args"] == "multiline":
+            t = multiline_parens(t, lines)
         else:
-            t = extend_args(t, vec["args"], changed_lines(text, expected))
+            t = extend_args(t, vec["args"], lines)
         if t is None:
             return None
     if vec.get("imp") == "local":
